@@ -60,53 +60,24 @@ theorem copy_missing_source (fs : FS) (src dst : Name) (m : Name) (p : PState)
   cases p <;>
     simp [copyFile, runCopy, copyProg, List.foldl, copyStep, openRead, hsrc, resErr]
 
-/-- **MoveFile preserves content.** If `src` is a directory entry of a regular file with inode
-    `i`:  result ok ⇒ `dst` holds exactly the bytes the source held;  result error ⇒ the file
-    system is unchanged (the source is still there with its content).  Covers the rename path
-    (incl. the POSIX no-op when `dst` is the same entry or a hard link of `src`, and replacing a
-    symlink `dst` — the name, not its target) and the fall-back copy+remove path for *every*
-    reason rename can fail (EXDEV, directory destination, missing parent, …), incl. `dst` being
-    a cross-device symlink back to `src` (guard ⇒ error, source kept).
+/-- **MoveFile rejects every aliasing before anything is touched.** Whenever `dst` resolves to
+    the very inode `src` resolves to — the same name, `src` a symbolic link (chain) to `dst`,
+    `dst` a symbolic link (chain) to `src`, a hard link — MoveFile returns the same-file error
+    and the file system is unchanged (no rename, no copy, no remove). -/
+theorem move_alias_rejected (fs : FS) (src dst : Name) (x y : Name) (i : Ino)
+    (hsrc : resolve fs src = .file x i) (hdst : resolve fs dst = .file y i) :
+    moveFile fs src dst = (fs, .error .sameFile) := by
+  rw [moveFile_guard]
+  simp [stat, hsrc, hdst]
 
-    The hypothesis `fs.entry src = .file i` (the source *name* is not itself a symbolic link)
-    cannot be dropped: see `move_symlink_source_loses_data`. -/
-theorem move_preserves (fs : FS) (src dst : Name) (i : Ino) (hf : Fresh fs)
-    (hsrc : fs.entry src = .file i) :
-    match moveFile fs src dst with
-    | (fs', .ok _) => content fs' dst = some (fs.data i)
-    | (fs', .error _) => fs' = fs := by
-  have hres : resolve fs src = .file src i := by simp [resolve, resolveN, hsrc]
-  cases hr : rename fs src dst with
-  | ok fs1 =>
-    simp [moveFile, runMove, moveProg, List.foldl, moveStep, hr]
-    exact rename_file_ok fs fs1 src dst i hsrc hr
-  | error e =>
-    have hspec := copyFile_spec fs src dst src i hf hres
-    cases hc : copyFile fs src dst with
-    | mk fs1 r =>
-      rw [hc] at hspec
-      cases r with
-      | error e2 =>
-        simp only at hspec
-        simp [moveFile, runMove, moveProg, List.foldl, moveStep, hr, hc, hspec]
-      | ok n =>
-        simp only [CopyOk] at hspec
-        obtain ⟨_, hdi, _, hent, y, k, hki, hy, hdk⟩ := hspec
-        have hs1 : fs1.entry src = .file i := by rw [hent src (by simp [hsrc]), hsrc]
-        simp [moveFile, runMove, moveProg, List.foldl, moveStep, hr, hc, unlink, hs1]
-        simp only [resolve] at hy
-        have hyk := resolveN_file_entry _ _ _ _ _ hy
-        have hne : y ≠ src := by
-          intro e; subst e; rw [hs1] at hyk; simp at hyk; exact hki hyk.symm
-        have := resolveN_upd_other fs1.entry src (.missing .ok) (by simp [hs1]) _ _ _ _ hne hy
-        simp [content, resolve, this, hdk]
-
-/-- **The copy+remove fall-back preserves content for every kind of source name.** Whenever
-    `rename` fails (other file system, directory destination, missing parent, …) and `src`
-    names a regular file *through any chain of symlinks*: result ok ⇒ `dst` holds the source's
-    bytes; result error ⇒ the file system is unchanged. -/
-theorem move_fallback_preserves (fs : FS) (src dst : Name) (b : Bytes) (e : Err) (hf : Fresh fs)
-    (hs : content fs src = some b) (hr : rename fs src dst = .error e) :
+/-- **MoveFile preserves content.** If `src` names a regular file with bytes `b` *through any
+    chain of symbolic links*:  result ok ⇒ `dst` holds exactly `b`;  result error ⇒ the file
+    system is unchanged (the source is still there with its content).  Covers the guard, the
+    rename path (regular-file entries and symbolic-link entries, destination missing / existing /
+    a symlink name that gets replaced) and the copy+remove fall-back for *every* reason rename can
+    fail (EXDEV, directory destination, missing parent, …). -/
+theorem move_preserves (fs : FS) (src dst : Name) (b : Bytes) (hf : Fresh fs)
+    (hs : content fs src = some b) :
     match moveFile fs src dst with
     | (fs', .ok _) => content fs' dst = some b
     | (fs', .error _) => fs' = fs := by
@@ -115,56 +86,72 @@ theorem move_fallback_preserves (fs : FS) (src dst : Name) (b : Bytes) (e : Err)
   | file x i =>
     simp [hsrc] at hs
     subst hs
-    have hspec := copyFile_spec fs src dst x i hf hsrc
-    cases hc : copyFile fs src dst with
-    | mk fs1 r =>
-      rw [hc] at hspec
-      cases r with
-      | error e2 =>
-        simp only at hspec
-        simp [moveFile, runMove, moveProg, List.foldl, moveStep, hr, hc, hspec]
-      | ok n =>
-        simp only [CopyOk] at hspec
-        obtain ⟨_, hdi, _, hent, y, k, hki, hy, hdk⟩ := hspec
-        simp only [resolve] at hsrc hy
-        have hsrc1 := resolveN_entries_kept fs.entry fs1.entry hent _ _ _ _ hsrc
-        -- dst's chain never reaches the name `src`: it would end in inode i, not k
-        have hunreached : ∀ f', f' ≤ maxLinks + 1 → resolveN fs1.entry f' src ≠ .file y k := by
-          intro f' hf' h
-          have := resolveN_mono fs1.entry f' src _ h (by simp) (maxLinks + 1) hf'
-          rw [hsrc1] at this
-          simp at this
-          exact hki this.2.symm
-        have hdst2 := resolveN_upd_unreached fs1.entry src (.missing .ok) _ _ _ _ hy hunreached
-        -- the source name exists in fs1 (it resolves), so `os.Remove` succeeds
+    by_cases halias : ∃ y, resolve fs dst = .file y i
+    · obtain ⟨y, hy⟩ := halias
+      rw [move_alias_rejected fs src dst x y i hsrc hy]
+    · -- the guard lets the call through: it behaves like the unguarded order
+      have hpin : moveFile fs src dst = moveFilePinned fs src dst := by
+        rw [moveFile_guard]
+        cases hd : stat fs dst with
+        | error e => simp [stat, hsrc]
+        | ok idd =>
+          have : idd ≠ .ino i := by
+            intro h; subst h
+            unfold stat at hd
+            split at hd <;> simp at hd
+            · next y k hk => subst hd; exact halias ⟨y, hk⟩
+          simp [stat, hsrc]
+          intro h; exact absurd h.symm this
+      rw [hpin]
+      cases hr : rename fs src dst with
+      | error e =>
+        exact movePinned_fallback fs src dst (fs.data i) e hf (by simp [content, hsrc]) hr
+      | ok fs1 =>
         cases hes : fs.entry src with
-        | missing p => simp [resolveN, hes] at hsrc
-        | dir => simp [resolveN, hes] at hsrc
+        | missing p => simp [resolve, resolveN, hes] at hsrc
+        | dir => simp [resolve, resolveN, hes] at hsrc
         | file i' =>
-          have hs1 : fs1.entry src = .file i' := by rw [hent src (by simp [hes]), hes]
-          simp [moveFile, runMove, moveProg, List.foldl, moveStep, hr, hc, unlink, hs1]
-          simp [content, resolve, hdst2, hdk]
+          have : i' = i := by simp [resolve, resolveN, hes] at hsrc; exact hsrc.2
+          subst this
+          exact movePinned_direct fs src dst i' hf hes
         | symlink t =>
-          have hs1 : fs1.entry src = .symlink t := by rw [hent src (by simp [hes]), hes]
-          simp [moveFile, runMove, moveProg, List.foldl, moveStep, hr, hc, unlink, hs1]
-          simp [content, resolve, hdst2, hdk]
+          simp [moveFilePinned, runMove, pinnedMoveProg, List.foldl, moveStep, hr]
+          exact rename_symlink_content fs fs1 src dst t x i hes hsrc
+            (fun y hy => halias ⟨y, hy⟩) hr
   | _ => simp [hsrc] at hs
 
 /-- **The source is removed only after the destination is complete.** If after MoveFile the
-    source name no longer is the entry it was, then MoveFile returned nil and `dst` holds the
-    original bytes. -/
-theorem move_removes_source_only_after_copy (fs : FS) (src dst : Name) (i : Ino) (hf : Fresh fs)
-    (hsrc : fs.entry src = .file i)
-    (hgone : (moveFile fs src dst).1.entry src ≠ .file i) :
+    source no longer holds its bytes under its name (the name was removed or replaced), then
+    MoveFile returned nil and `dst` holds the original bytes. -/
+theorem move_removes_source_only_after_copy (fs : FS) (src dst : Name) (b : Bytes)
+    (hf : Fresh fs) (hs : content fs src = some b)
+    (hgone : (moveFile fs src dst).1.entry src ≠ fs.entry src) :
     (∃ u, (moveFile fs src dst).2 = .ok u) ∧
-      content (moveFile fs src dst).1 dst = some (fs.data i) := by
-  have h := move_preserves fs src dst i hf hsrc
+      content (moveFile fs src dst).1 dst = some b := by
+  have h := move_preserves fs src dst b hf hs
   cases hm : moveFile fs src dst with
   | mk fs' r =>
     rw [hm] at h hgone
     cases r with
     | ok u => exact ⟨⟨u, rfl⟩, h⟩
-    | error e => simp only at h; subst h; exact absurd hsrc hgone
+    | error e => simp only at h; subst h; exact absurd rfl hgone
+
+/-- a missing source name: error, nothing renamed, created or removed -/
+theorem move_missing_source (fs : FS) (src dst : Name) (p : PState)
+    (hsrc : fs.entry src = .missing p) : ∃ e, moveFile fs src dst = (fs, .error e) := by
+  have hres : resolve fs src = .missing src p := by simp [resolve, resolveN, hsrc]
+  obtain ⟨e, hc⟩ := copy_missing_source fs src dst src p hres
+  have hr : ∃ e', rename fs src dst = .error e' := by
+    unfold rename
+    rw [hsrc]
+    cases p <;> cases hd : fs.entry dst <;> (try rename_i q; cases q) <;>
+      by_cases hdev : fs.dev src = fs.dev dst <;> simp [hdev]
+  obtain ⟨e', hr⟩ := hr
+  refine ⟨e, ?_⟩
+  rw [moveFile_guard]
+  simp [stat, hres, resErr]
+  cases p <;>
+    simp [moveFilePinned, runMove, pinnedMoveProg, List.foldl, moveStep, hr, hc]
 
 /-! ## Findings documented by concrete witnesses -/
 
@@ -188,15 +175,19 @@ theorem pinned_copy_loses_data :
       content (copyFile (twoNames alias) 0 1).1 0 = some [1, 2, 3] ∧
       (copyFile (twoNames alias) 0 0).2 = .error .sameFile := by decide
 
-/-- **Outside the property's quantifier, reported:** when the *source name* is a symbolic link
-    to the destination (`src → dst`), `rename(src, dst)` succeeds and replaces `dst` by the link,
-    which now points to itself: MoveFile returns nil and the bytes are unreachable.  (Here name 1
-    is the symlink and the source, name 0 the file and the destination.) -/
+/-- **F9 (fixed by cf1ff93).** Before the guard, when the *source name* is a symbolic link to
+    the destination (`src → dst`), `rename(src, dst)` succeeds and replaces `dst` by the link,
+    which now points to itself: MoveFile returned nil and the bytes were unreachable.  (Name 1 is
+    the symlink and the source, name 0 the file and the destination.)  The guarded order
+    rejects the call and keeps the bytes. -/
 theorem move_symlink_source_loses_data :
     content (twoNames (.symlink 0)) 1 = some [1, 2, 3] ∧
-    (moveFile (twoNames (.symlink 0)) 1 0).2 = .ok () ∧
-    content (moveFile (twoNames (.symlink 0)) 1 0).1 0 = none ∧
-    resolve (moveFile (twoNames (.symlink 0)) 1 0).1 0 = .loop := by decide
+    (moveFilePinned (twoNames (.symlink 0)) 1 0).2 = .ok () ∧
+    content (moveFilePinned (twoNames (.symlink 0)) 1 0).1 0 = none ∧
+    resolve (moveFilePinned (twoNames (.symlink 0)) 1 0).1 0 = .loop ∧
+    (moveFile (twoNames (.symlink 0)) 1 0).2 = .error .sameFile ∧
+    content (moveFile (twoNames (.symlink 0)) 1 0).1 0 = some [1, 2, 3] ∧
+    content (moveFile (twoNames (.symlink 0)) 1 0).1 1 = some [1, 2, 3] := by decide
 
 /-! ## Non-vacuity -/
 
@@ -215,7 +206,9 @@ example : (copyFile (twoNames (.symlink 5)) 0 2).2 = .ok 3 ∧
     (copyFile (twoNames (.symlink 5)) 0 1).2 = .ok 3 ∧
     content (copyFile (twoNames (.symlink 5)) 0 1).1 5 = some [1, 2, 3] := by decide
 
-/-- MoveFile: same device = rename; other device = copy + remove; onto a hard link = no-op -/
+/-- MoveFile: same device = rename; other device = copy + remove; onto a hard link of the
+    source, the same path, or a (cross-device) symlink back to the source = same-file error with
+    everything left in place -/
 example :
     (moveFile (twoNames (.missing .ok)) 0 1).2 = .ok () ∧
     content (moveFile (twoNames (.missing .ok)) 0 1).1 1 = some [1, 2, 3] ∧
@@ -223,8 +216,9 @@ example :
     (moveFile { twoNames (.missing .ok) with dev := fun n => n } 0 1).2 = .ok () ∧
     content (moveFile { twoNames (.missing .ok) with dev := fun n => n } 0 1).1 1 = some [1, 2, 3] ∧
     (moveFile { twoNames (.missing .ok) with dev := fun n => n } 0 1).1.entry 0 = .missing .ok ∧
-    (moveFile (twoNames (.file 0)) 0 1).2 = .ok () ∧
+    (moveFile (twoNames (.file 0)) 0 1).2 = .error .sameFile ∧
     (moveFile (twoNames (.file 0)) 0 1).1.entry 0 = .file 0 ∧
+    (moveFile (twoNames (.file 0)) 0 0).2 = .error .sameFile ∧
     (moveFile { twoNames (.symlink 0) with dev := fun n => n } 0 1).2 = .error .sameFile := by
   decide
 
